@@ -33,6 +33,10 @@ def wide_component(rng, name):
                                     c=rng.uniform(-300000.0, 200000.0), type="frost")
     else:
         vp = VaporPressureConstants(a=rng.uniform(4.0, 10.0), b=rng.uniform(-3000.0, -800.0), c=rng.uniform(-120.0, 20.0))
+        if rng.random() < 0.15:         # handbook-style sets with a large positive third constant
+            vp = VaporPressureConstants(a=vp.a, b=vp.b, c=rng.uniform(150.0, 260.0))
+    if rng.random() < 0.12:             # "every constant set": also a positive second constant (pressure falling with temperature)
+        vp = VaporPressureConstants(a=vp.a - 8.0, b=-vp.b, c=vp.c, type=vp.type)
     sc = rng.choice([1.0, 1.0, 10.0, 0.01])
     z = lambda v: 0.0 if rng.random() < 0.12 else v          # any coefficient may be exactly zero (also the constant term)
     hc = HeatCapacityConstants(a=z(rng.uniform(-300.0, 300.0) * sc), b=z(rng.uniform(-2.0, 2.0) * sc),
@@ -71,10 +75,15 @@ def record(tw, rng, n, stats):
         else:
             continue
         h = 1e-4 * T
-        tw.add([{"ev": "Vap", "name": c.name, "vp": vp_desc(c), "T": F(T), "h": F(h),
-                 "p": F(c.get_vapor_pressure(T)), "pPlus": F(c.get_vapor_pressure(T + h)),
-                 "pMinus": F(c.get_vapor_pressure(T - h)), "pPlus2": F(c.get_vapor_pressure(T + 2 * h)),
-                 "pMinus2": F(c.get_vapor_pressure(T - 2 * h)), "hvap": F(c.get_vaporisation_heat(T))}])
+        try:
+            tw.add([{"ev": "Vap", "name": c.name, "vp": vp_desc(c), "T": F(T), "h": F(h),
+                     "p": F(c.get_vapor_pressure(T)), "pPlus": F(c.get_vapor_pressure(T + h)),
+                     "pMinus": F(c.get_vapor_pressure(T - h)), "pPlus2": F(c.get_vapor_pressure(T + 2 * h)),
+                     "pMinus2": F(c.get_vapor_pressure(T - 2 * h)), "hvap": F(c.get_vaporisation_heat(T))}])
+        except ArithmeticError:
+            # an overflow of the library's own arithmetic (not expected 40 K away from the pole): no relation can be stated on this
+            # record; the others decide
+            stats["skipped"] = stats.get("skipped", 0) + 1
         # --- cooling heat
         t0, t1 = rng.uniform(150.0, 550.0), rng.uniform(150.0, 550.0)
         if rng.random() < 0.05:
